@@ -31,9 +31,10 @@ FAMILIES = [
 ]
 
 
-def cfg(sv, st, dv, dt, ops):
+def cfg(sv, st, dv, dt, ops, ev='', et='none'):
   return dict(sv=[_shape(c) for c in sv], st=st, dv=[_shape(c) for c in dv], dt=dt,
-              ops=frozenset(ops), svn=sv, dvn=dv)
+              ev=[_shape(c) for c in ev], et=et,
+              ops=frozenset(ops), svn=sv, dvn=dv, evn=ev)
 
 
 def _shape(c):
@@ -51,11 +52,14 @@ def configs(tier):
       out.append(cfg('', 'none', dv, dt, D_OPS))
   for sv, dv in (('A', 'C'), ('AC', 'E'), ('E', 'A')):
     out.append(cfg(sv, 'inc', dv, 'clamp', S_OPS | D_OPS))
+  # two dimensioned measurements: the validator of one raises at phase end
+  for dv, ev in (('C', 'A'), ('C', 'C'), ('A', 'C'), ('E', 'D'), ('', 'E')):
+    out.append(cfg('', 'none', dv, 'none', {'SetD', 'SetE', 'Read'}, ev=ev, et='inc'))
   return out
 
 
 def module(cfgs):
-  body = ',\n'.join(to_tla({k: v for k, v in c.items() if k not in ('svn', 'dvn')}) for c in cfgs)
+  body = ',\n'.join(to_tla({k: v for k, v in c.items() if k not in ('svn', 'dvn', 'evn')}) for c in cfgs)
   return '---- MODULE MCMeas ----\nEXTENDS Measurement\nMCCfgs == <<\n%s\n>>\n====\n' % body
 
 
@@ -75,6 +79,7 @@ INVARIANT OutcomeFormula
 INVARIANT MarginalFormula
 INVARIANT NoPartiallySet
 INVARIANT DimOutcomeFormula
+INVARIANT SecondDimOutcome
 INVARIANT RaisingSurfaces
 INVARIANT DistinctCoords
 PROPERTY OrderStable
@@ -203,6 +208,8 @@ def run_batch(items):
             api.measurements.s = tok.vals[op[1]]
           elif name == 'SetD':
             api.measurements.d[op[1]] = tok.vals[op[2]]
+          elif name == 'SetE':
+            api.measurements.e[op[1]] = tok.vals[op[2]]
           elif name == 'BadArity':
             api.measurements.d[1, 2] = tok.vals[op[1]]
           elif name == 'NoCoord':
@@ -215,7 +222,12 @@ def run_batch(items):
           bad.append(('exception', '%s raised %r to the body, model says %r' % (name, got, exc)))
         s_mem = render_scratch(ps.measurements['s'], tok)
         d_mem = render_scratch(ps.measurements['d'], tok)
+        e_mem = render_scratch(ps.measurements['e'], tok)
         exp_s, exp_d = tuple(obs['s']), (list(map(list, obs['d'][0])), obs['d'][1], obs['d'][2])
+        exp_e = (list(map(list, obs['e'][0])), obs['e'][1], obs['e'][2])
+        if (e_mem[0], e_mem[1], e_mem[2]) != exp_e:
+          bad.append(('state', 'after %s second dimensioned measurement (rows, outcome, marginal) is %s, model says %s'
+                      % (name, e_mem, exp_e)))
         if tuple(s_mem) != exp_s:
           bad.append(('state', 'after %s scalar measurement (value, outcome, marginal) is %s, model says %s'
                       % (name, s_mem, exp_s)))
@@ -226,6 +238,10 @@ def run_batch(items):
           live = ps.as_base_types()['measurements']
           ls = project_base(live['s'], tok, False)
           ld = project_base(live['d'], tok, True)
+          le = project_base(live['e'], tok, True)
+          if (le[0], le[1]) != (e_mem[0], e_mem[1]):
+            bad.append(('live_view', 'live view of the second dimensioned measurement is %s, in-memory state is %s'
+                        % (le, e_mem[:2])))
           if ls != (s_mem[0], s_mem[1]):
             bad.append(('live_view', 'live view of the scalar measurement is %s, in-memory state is %s'
                         % (ls, s_mem[:2])))
@@ -247,8 +263,14 @@ def run_batch(items):
     t = transform(c['dt'], tok)
     if t:
       md.with_transform(t)
+    me = m_lib.Measurement('e').with_dimensions('x')
+    for sh in c['ev']:
+      me.with_validator(AbsValidator(sh, tok, dim=True))
+    t = transform(c['et'], tok)
+    if t:
+      me.with_transform(t)
     ph = htf.PhaseOptions(name='h%d' % k, requires_state=True)(body)
-    return htf.measures(ms, md)(ph)
+    return htf.measures(ms, md, me)(ph)
 
   for k, (c, hist, fam) in enumerate(items):
     phases.append(make(k, c, hist, fam))
@@ -275,7 +297,12 @@ def run_batch(items):
     p = rec.phases[k]
     s_mem = render_scratch(p.measurements['s'], tok)
     d_mem = render_scratch(p.measurements['d'], tok)
+    e_mem = render_scratch(p.measurements['e'], tok)
     exp_s, exp_d = tuple(obs['s']), (list(map(list, obs['d'][0])), obs['d'][1], obs['d'][2])
+    exp_e = (list(map(list, obs['e'][0])), obs['e'][1], obs['e'][2])
+    if (e_mem[0], e_mem[1], e_mem[2]) != exp_e:
+      bad.append(('final', 'recorded second dimensioned measurement (rows, outcome, marginal) is %s, model says %s'
+                  % (e_mem, exp_e)))
     if tuple(s_mem) != exp_s:
       bad.append(('final', 'recorded scalar measurement (value, outcome, marginal) is %s, model says %s'
                   % (s_mem, exp_s)))
@@ -321,7 +348,7 @@ def work(args):
       for cat, msg in bad:
         out['cats'][cat] = out['cats'].get(cat, 0) + 1
       if bad and len(out['bad']) < 8:
-        out['bad'].append(dict(cfg=dict(sv=c['svn'], st=c['st'], dv=c['dvn'], dt=c['dt']),
+        out['bad'].append(dict(cfg=dict(sv=c['svn'], st=c['st'], dv=c['dvn'], dt=c['dt'], ev=c['evn'], et=c['et']),
                                hist=hist, fam=fam, mismatches=bad))
       if out['sample'] is None and len(hist) >= 3:
         out['sample'] = dict(cfg=dict(sv=c['svn'], st=c['st'], dv=c['dvn'], dt=c['dt']),
@@ -330,5 +357,6 @@ def work(args):
 
 
 def replay_one(sc):
-  c = cfg(sc['cfg']['sv'], sc['cfg']['st'], sc['cfg']['dv'], sc['cfg']['dt'], S_OPS | D_OPS)
+  c = cfg(sc['cfg']['sv'], sc['cfg']['st'], sc['cfg']['dv'], sc['cfg']['dt'], S_OPS | D_OPS | {'SetE'},
+          ev=sc['cfg'].get('ev', ''), et=sc['cfg'].get('et', 'none'))
   return run_batch([(c, sc['hist'], sc['fam'])])[0]
